@@ -195,7 +195,7 @@ func underErrNonNil(b *ssa.BasicBlock, errFv *ssa.FreeVar) bool {
 			continue
 		}
 		bo, ok := ifi.Cond.(*ssa.BinOp)
-		if !ok || bo.Op != token.NEQ {
+		if !ok || (bo.Op != token.NEQ && bo.Op != token.EQL) {
 			continue
 		}
 		ld, ok := bo.X.(*ssa.UnOp)
@@ -203,7 +203,10 @@ func underErrNonNil(b *ssa.BasicBlock, errFv *ssa.FreeVar) bool {
 		if !ok || !ok2 || ld.Op != token.MUL || ld.X != ssa.Value(errFv) || !c.IsNil() {
 			continue
 		}
-		t := d.Succs[0]
+		t := d.Succs[0] // `if err != nil { … }`
+		if bo.Op == token.EQL {
+			t = d.Succs[1] // `if err == nil { return }; …`
+		}
 		if len(t.Preds) == 1 && (t == b || t.Dominates(b)) {
 			return true
 		}
@@ -330,4 +333,62 @@ func resultAllocs(f *ssa.Function) []*ssa.Alloc {
 		}
 	}
 	return out
+}
+
+// failureOnlyCleanup: the instruction sits in a deferred function literal, under
+// `if err != nil` with err the error result of the deferring function: it runs only when
+// that function fails. In a message handler the whole transaction is then reverted, so what
+// a compensating clean-up does there (give back what was taken, log) is not an effect of any
+// committed execution.
+func failureOnlyCleanup(ins ssa.Instruction) bool {
+	fn := ins.Parent()
+	par := fn.Parent()
+	if par == nil || ins.Block() == nil {
+		return false
+	}
+	// the literal is created once, for a defer
+	var mc *ssa.MakeClosure
+	for _, b := range par.Blocks {
+		for _, i2 := range b.Instrs {
+			if m, ok := i2.(*ssa.MakeClosure); ok && m.Fn == ssa.Value(fn) {
+				if mc != nil {
+					return false
+				}
+				mc = m
+			}
+		}
+	}
+	if mc == nil || mc.Referrers() == nil {
+		return false
+	}
+	deferred := false
+	for _, r := range *mc.Referrers() {
+		if d, ok := r.(*ssa.Defer); ok && d.Call.Value == ssa.Value(mc) {
+			deferred = true
+		} else if _, isDbg := r.(*ssa.DebugRef); !isDbg {
+			return false
+		}
+	}
+	if !deferred {
+		return false
+	}
+	var errAlloc *ssa.Alloc
+	for _, a := range resultAllocs(par) {
+		if pt, ok := a.Type().(*types.Pointer); ok && isErrorType(pt.Elem()) {
+			errAlloc = a
+		}
+	}
+	if errAlloc == nil {
+		return false
+	}
+	var errFv *ssa.FreeVar
+	for i, bnd := range mc.Bindings {
+		if bnd == ssa.Value(errAlloc) && i < len(fn.FreeVars) {
+			errFv = fn.FreeVars[i]
+		}
+	}
+	if errFv == nil || deferredWrites(par, errAlloc, errAlloc) != "none" {
+		return false
+	}
+	return underErrNonNil(ins.Block(), errFv)
 }
